@@ -61,10 +61,18 @@ func pitcsDeadLeaf(n *pitCsTreeNode) bool { return pitcsNodeAttached(n) && pitcs
 //@   modifies all(ghostPitcsChildMap)
 //@   ensures [no-dead-branch] forall(func(n *pitCsTreeNode) bool { return !pitcsDeadLeaf(n) })
 //@   ensures [only-deletes] forall(func(n *pitCsTreeNode, k uint64) bool { return mapHas(n.children, k) ==> old(mapHas(n.children, k)) && n.children[k] == old(n.children[k]) })
+//@   ensures [only-empty-unlinked] forall(func(n *pitCsTreeNode, k uint64) bool { return old(mapHas(n.children, k)) && !mapHas(n.children, k) ==> exists(func(c *pitCsTreeNode) bool { return c.parent == n && c.component != nil && (*c.component).Hash() == k && c.csEntry == nil && len(c.pitEntries) == 0 }) })
 //@   loop 1 invariant curNode != nil
+//@   loop 1 invariant [only-empty-unlinked] forall(func(n *pitCsTreeNode, k uint64) bool { return old(mapHas(n.children, k)) && !mapHas(n.children, k) ==> exists(func(c *pitCsTreeNode) bool { return c.parent == n && c.component != nil && (*c.component).Hash() == k && c.csEntry == nil && len(c.pitEntries) == 0 }) })
 //@   loop 1 invariant forall(func(n *pitCsTreeNode, k uint64) bool { return mapHas(n.children, k) ==> old(mapHas(n.children, k)) && n.children[k] == old(n.children[k]) })
 //@   loop 1 invariant forall(func(n *pitCsTreeNode) bool { return n != curNode ==> !pitcsDeadLeaf(n) })
 
+// [only-empty-unlinked] (C07 "a cached packet is always found by exact-name lookup", C08): a child key disappears from a node
+// only on behalf of a node that hangs below it (parent pointer) under that key (hash of its component) and holds no CS
+// entry and no PIT entry. This holds for EVERY node on the pruned path, not only for the node the walk starts from. (The
+// third condition of the loop guard, "no child", is not in the clause: with it the existential witness is no longer found
+// by any solver within the limit; "no child left behind" is what [no-dead-branch] and [only-deletes] already give.)
+//
 // ghostPitcsChildMap names the type of pitCsTreeNode.children for `modifies all(...)` clauses.
 type ghostPitcsChildMap = map[uint64]*pitCsTreeNode
 
@@ -395,6 +403,7 @@ func specPitcsClockAt(i int) time.Time { return specPitcsClockAt(i) }
 //@   invariant forall(func(n *pitCsTreeNode) bool { return n.csEntry != nil ==> n.csEntry.node == n })
 //@   requires p.depth == 0 && p.children != nil && len(name) <= 281474976710656
 //@   requires forall(func(n *pitCsTreeNode) bool { return !pitcsDeadLeaf(n) })
+//@   requires [up] forall(func(n *pitCsTreeNode) bool { return n.parent != nil ==> n.depth == n.parent.depth+1 })
 //@   modifies all(ghostPitcsChildMap)
 //@   ensures result != nil && result.depth == len(name)
 //@   ensures [only-result-may-be-dead] forall(func(n *pitCsTreeNode) bool { return n != result ==> !pitcsDeadLeaf(n) })
@@ -405,7 +414,9 @@ func specPitcsClockAt(i int) time.Time { return specPitcsClockAt(i) }
 //@   loop 1 invariant forall(func(n *pitCsTreeNode, k uint64) bool { return !fresh(n) && old(mapHas(n.children, k)) ==> mapHas(n.children, k) && n.children[k] == old(n.children[k]) })
 //@   loop 1 invariant fresh(curNode) || curNode.depth >= len(name) || !old(mapHas(curNode.children, name[curNode.depth].Hash()))
 //@   loop 1 invariant forall(func(n *pitCsTreeNode) bool { return fresh(n) ==> n.csEntry == nil && len(n.pitEntries) == 0 })
+//@   loop 1 invariant [up] forall(func(n *pitCsTreeNode) bool { return n.parent != nil ==> n.depth == n.parent.depth+1 })
 //@   loop 1 decreases len(name) - curNode.depth
+//@   ensures [up] forall(func(n *pitCsTreeNode) bool { return n.parent != nil ==> n.depth == n.parent.depth+1 })
 
 //@ func (CsReplacementPolicy).AfterInsert
 //@   ensures ghostPitcsClock == old(ghostPitcsClock)
@@ -461,6 +472,8 @@ func specPitcsClockAt(i int) time.Time { return specPitcsClockAt(i) }
 //@   invariant forall(func(k uint64) bool { return mapHas(p.csReplacement.(*CsLRU).locations, k) ==> p.csReplacement.(*CsLRU).locations[k] != nil && p.csReplacement.(*CsLRU).locations[k].list == p.csReplacement.(*CsLRU).queue && typeIs(p.csReplacement.(*CsLRU).locations[k].Value, "uint64") && p.csReplacement.(*CsLRU).locations[k].Value.(uint64) == k })
 //@   invariant forall(func(e *list.Element) bool { return e.list == p.csReplacement.(*CsLRU).queue ==> typeIs(e.Value, "uint64") && mapHas(p.csReplacement.(*CsLRU).locations, e.Value.(uint64)) && p.csReplacement.(*CsLRU).locations[e.Value.(uint64)] == e })
 //@   invariant [same-keys] forall(func(k uint64) bool { return mapHas(p.csMap, k) == mapHas(p.csReplacement.(*CsLRU).locations, k) }) && len(p.csMap) == len(p.csReplacement.(*CsLRU).locations)
+//@   invariant [up] forall(func(n *pitCsTreeNode) bool { return n.parent != nil ==> n.depth == n.parent.depth+1 })
+//@   invariant [pit-back] forall(func(n *pitCsTreeNode, i int) bool { return 0 <= i && i < len(n.pitEntries) ==> n.pitEntries[i] != nil && n.pitEntries[i].node == n })
 //@   assume len(p.csReplacement.(*CsLRU).locations) <= 72057594037927936
 //@   modifies ghostPitcsClock, p.nCsEntries, p.csMap[*], all(pitCsTreeNode.csEntry), all(ghostPitcsChildMap), p.csMap[enc.SpecNameHash(data.NameV)].wire, p.csMap[enc.SpecNameHash(data.NameV)].staleTime, p.csReplacement.(*CsLRU).locations[*], p.csReplacement.(*CsLRU).queue.len, all(list.Element.list)
 //@   ensures [stale-time] mapHas(p.csMap, enc.SpecNameHash(data.NameV)) && (data.MetaInfo == nil || data.MetaInfo.FreshnessPeriod == nil) ==> p.csMap[enc.SpecNameHash(data.NameV)].staleTime == specPitcsClockAt(ghostPitcsClock-1)
@@ -538,15 +551,23 @@ type ghostPitcsEntrySlice = []*nameTreePitEntry
 //@   invariant forall(func(n *pitCsTreeNode) bool { return 0 <= n.depth && n.depth <= 281474976710656 })
 //@   invariant forall(func(n *pitCsTreeNode) bool { return n.parent != nil ==> n.depth == n.parent.depth+1 })
 //@   invariant forall(func(n *pitCsTreeNode, i int) bool { return 0 <= i && i < len(n.pitEntries) ==> n.pitEntries[i] != nil && n.pitEntries[i].node == n })
+//@   invariant [recs] forall(func(e *nameTreePitEntry) bool { return e.node != nil ==> e.inRecords != nil })
+//@   invariant [recs-non-nil] forall(func(e *nameTreePitEntry, k uint64) bool { return e.node != nil && mapHas(e.inRecords, k) ==> e.inRecords[k] != nil })
 //@   requires p.root != nil && p.root.depth == 0 && p.root.children != nil
 //@   ensures fresh(result)
+//@   ensures [records] forallIn(0, len(result), func(i int) bool { return result[i].(*nameTreePitEntry).inRecords != nil })
+//@   ensures [records-non-nil] forallIn(0, len(result), func(i int) bool { return forall(func(k uint64) bool { return mapHas(result[i].(*nameTreePitEntry).inRecords, k) ==> result[i].(*nameTreePitEntry).inRecords[k] != nil }) })
 //@   ensures [match-rule] forallIn(0, len(result), func(i int) bool { return result[i] != nil && typeIs(result[i], "*nameTreePitEntry") && result[i].(*nameTreePitEntry) != nil && result[i].(*nameTreePitEntry).node != nil && result[i].(*nameTreePitEntry).node.depth <= len(name) && (result[i].(*nameTreePitEntry).canBePrefix || result[i].(*nameTreePitEntry).node.depth == len(name)) })
 //@   loop 1 invariant fresh(matching) && (curNode != nil ==> curNode.depth <= len(name))
 //@   loop 1 invariant forallIn(0, len(matching), func(i int) bool { return matching[i] != nil && typeIs(matching[i], "*nameTreePitEntry") && matching[i].(*nameTreePitEntry) != nil && matching[i].(*nameTreePitEntry).node != nil && matching[i].(*nameTreePitEntry).node.depth <= len(name) && (matching[i].(*nameTreePitEntry).canBePrefix || matching[i].(*nameTreePitEntry).node.depth == len(name)) })
+//@   loop 1 invariant forallIn(0, len(matching), func(i int) bool { return matching[i].(*nameTreePitEntry).inRecords != nil })
+//@   loop 1 invariant forallIn(0, len(matching), func(i int) bool { return forall(func(k uint64) bool { return mapHas(matching[i].(*nameTreePitEntry).inRecords, k) ==> matching[i].(*nameTreePitEntry).inRecords[k] != nil }) })
 //@   loop 1 decreases pitcsDepthPlus1(curNode)
 //@   loop 2 invariant fresh(matching) && curNode != nil && curNode.depth <= len(name) && 0 <= curNode.depth
 //@   loop 2 invariant forallIn(0, len(curNode.pitEntries), func(i int) bool { return curNode.pitEntries[i] != nil && curNode.pitEntries[i].node == curNode })
 //@   loop 2 invariant forallIn(0, len(matching), func(i int) bool { return matching[i] != nil && typeIs(matching[i], "*nameTreePitEntry") && matching[i].(*nameTreePitEntry) != nil && matching[i].(*nameTreePitEntry).node != nil && matching[i].(*nameTreePitEntry).node.depth <= len(name) && (matching[i].(*nameTreePitEntry).canBePrefix || matching[i].(*nameTreePitEntry).node.depth == len(name)) })
+//@   loop 2 invariant forallIn(0, len(matching), func(i int) bool { return matching[i].(*nameTreePitEntry).inRecords != nil })
+//@   loop 2 invariant forallIn(0, len(matching), func(i int) bool { return forall(func(k uint64) bool { return mapHas(matching[i].(*nameTreePitEntry).inRecords, k) ==> matching[i].(*nameTreePitEntry).inRecords[k] != nil }) })
 
 // FindInterestPrefixMatchByDataEnc: by token when one is given (exactly the entry registered under that token, if any),
 // by name otherwise.
@@ -557,10 +578,14 @@ type ghostPitcsEntrySlice = []*nameTreePitEntry
 //@   invariant forall(func(n *pitCsTreeNode) bool { return 0 <= n.depth && n.depth <= 281474976710656 })
 //@   invariant forall(func(n *pitCsTreeNode) bool { return n.parent != nil ==> n.depth == n.parent.depth+1 })
 //@   invariant forall(func(n *pitCsTreeNode, i int) bool { return 0 <= i && i < len(n.pitEntries) ==> n.pitEntries[i] != nil && n.pitEntries[i].node == n })
+//@   invariant [recs] forall(func(e *nameTreePitEntry) bool { return e.node != nil ==> e.inRecords != nil })
+//@   invariant [recs-non-nil] forall(func(e *nameTreePitEntry, k uint64) bool { return e.node != nil && mapHas(e.inRecords, k) ==> e.inRecords[k] != nil })
 //@   requires data != nil && p.root != nil && p.root.depth == 0 && p.root.children != nil
-//@   requires forall(func(k uint32) bool { return mapHas(p.pitTokenMap, k) ==> p.pitTokenMap[k] != nil })
+//@   requires [tokens] forall(func(k uint32) bool { return mapHas(p.pitTokenMap, k) ==> p.pitTokenMap[k] != nil && p.pitTokenMap[k].node != nil })
 //@   nullable token
 //@   ensures forallIn(0, len(result), func(i int) bool { return result[i] != nil })
+//@   ensures [entries] forallIn(0, len(result), func(i int) bool { return typeIs(result[i], "*nameTreePitEntry") && result[i].(*nameTreePitEntry) != nil && result[i].(*nameTreePitEntry).inRecords != nil })
+//@   ensures [records-non-nil] forallIn(0, len(result), func(i int) bool { return forall(func(k uint64) bool { return mapHas(result[i].(*nameTreePitEntry).inRecords, k) ==> result[i].(*nameTreePitEntry).inRecords[k] != nil }) })
 //@   ensures [by-token] token != nil ==> len(result) <= 1 && (len(result) == 1 ==> mapHas(p.pitTokenMap, *token) && typeIs(result[0], "*nameTreePitEntry") && result[0].(*nameTreePitEntry) == p.pitTokenMap[*token] && p.pitTokenMap[*token].token == *token)
 //@   ensures [by-token-miss] token != nil && len(result) == 0 ==> !mapHas(p.pitTokenMap, *token) || p.pitTokenMap[*token].token != *token
 //@   ensures [by-name] token == nil ==> forallIn(0, len(result), func(i int) bool { return typeIs(result[i], "*nameTreePitEntry") && result[i].(*nameTreePitEntry) != nil && result[i].(*nameTreePitEntry).node != nil && result[i].(*nameTreePitEntry).node.depth <= len(data.NameV) && (result[i].(*nameTreePitEntry).canBePrefix || result[i].(*nameTreePitEntry).node.depth == len(data.NameV)) })
@@ -666,16 +691,25 @@ func pitcsLifetime(interest *spec.Interest) time.Duration {
 //@ func (*PitCsTree).InsertInterest
 //@   requires interest != nil && interest.NonceV != nil && p.root != nil && p.root.depth == 0 && p.root.children != nil && p.pitTokenMap != nil
 //@   requires forall(func(n *pitCsTreeNode) bool { return !pitcsDeadLeaf(n) })
-//@   requires forall(func(e *nameTreePitEntry, k uint64) bool { return mapHas(e.inRecords, k) ==> e.inRecords[k] != nil })
 //@   invariant forall(func(n *pitCsTreeNode) bool { return n.parent != nil ==> n.component != nil && n.parent.children != nil })
 //@   invariant forall(func(a *pitCsTreeNode, b *pitCsTreeNode) bool { return a != b && a.children != nil ==> a.children != b.children })
 //@   invariant forall(func(n *pitCsTreeNode, k uint64) bool { return mapHas(n.children, k) ==> n.children[k] != nil && n.children[k].depth == n.depth+1 && n.children[k].parent == n && n.children[k].children != nil && n.children[k].component != nil })
 //@   invariant forall(func(n *pitCsTreeNode) bool { return 0 <= n.depth && n.depth <= 281474976710656 })
 //@   invariant forall(func(n *pitCsTreeNode) bool { return n.csEntry != nil ==> n.csEntry.node == n })
 //@   invariant forall(func(n *pitCsTreeNode, i int) bool { return 0 <= i && i < len(n.pitEntries) ==> n.pitEntries[i] != nil && n.pitEntries[i].node == n })
+//@   invariant [recs] forall(func(e *nameTreePitEntry) bool { return e.node != nil ==> e.inRecords != nil })
+//@   invariant [recs-non-nil] forall(func(e *nameTreePitEntry, k uint64) bool { return e.node != nil && mapHas(e.inRecords, k) ==> e.inRecords[k] != nil })
+//@   invariant [tokens] forall(func(k uint32) bool { return mapHas(p.pitTokenMap, k) ==> p.pitTokenMap[k] != nil && p.pitTokenMap[k].node != nil })
+//@   invariant [up] forall(func(n *pitCsTreeNode) bool { return n.parent != nil ==> n.depth == n.parent.depth+1 })
+//@   assert before generateNewPitToken@1 [recs] forall(func(e *nameTreePitEntry) bool { return e.node != nil ==> e.inRecords != nil })
+//@   assert before generateNewPitToken@1 [recs-non-nil] forall(func(e *nameTreePitEntry, k uint64) bool { return e.node != nil && mapHas(e.inRecords, k) ==> e.inRecords[k] != nil })
+//@   assert before generateNewPitToken@1 [no-dead-branch] forall(func(n *pitCsTreeNode) bool { return !pitcsDeadLeaf(n) })
+//@   assert before generateNewPitToken@1 [sep] forall(func(a *pitCsTreeNode, b *pitCsTreeNode) bool { return a != b && a.children != nil ==> a.children != b.children })
+//@   assert before generateNewPitToken@1 [links] forall(func(n *pitCsTreeNode, k uint64) bool { return mapHas(n.children, k) ==> n.children[k] != nil && n.children[k].depth == n.depth+1 && n.children[k].parent == n && n.children[k].children != nil && n.children[k].component != nil })
 //@   modifies p.nPitEntries, p.pitTokenMap[*], all(pitCsTreeNode.pitEntries), all(ghostPitcsEntrySlice), all(ghostPitcsChildMap), all(time.Time), ghostPitcsClock
 //@   ensures [no-dead-branch] forall(func(n *pitCsTreeNode) bool { return !pitcsDeadLeaf(n) })
 //@   ensures [entry] result0 != nil && typeIs(result0, "*nameTreePitEntry") && result0.(*nameTreePitEntry) != nil && result0.(*nameTreePitEntry).node != nil && result0.(*nameTreePitEntry).node.depth == len(interest.NameV) && result0.(*nameTreePitEntry).canBePrefix == interest.CanBePrefixV && result0.(*nameTreePitEntry).mustBeFresh == interest.MustBeFreshV
+//@   ensures [entry-records] result0.(*nameTreePitEntry).inRecords != nil && forall(func(k uint64) bool { return mapHas(result0.(*nameTreePitEntry).inRecords, k) ==> result0.(*nameTreePitEntry).inRecords[k] != nil })
 //@   ensures [listed] existsIn(0, len(result0.(*nameTreePitEntry).node.pitEntries), func(i int) bool { return result0.(*nameTreePitEntry).node.pitEntries[i] == result0.(*nameTreePitEntry) })
 //@   ensures [duplicate-nonce] result1 == exists(func(k uint64) bool { return mapHas(result0.(*nameTreePitEntry).inRecords, k) && k != inFace && result0.(*nameTreePitEntry).inRecords[k].LatestNonce == *interest.NonceV })
 //@   ensures [new-entry] fresh(result0.(*nameTreePitEntry)) ==> !result1 && result0.(*nameTreePitEntry).pitCsTable == p && p.nPitEntries == old(p.nPitEntries)+1 && mapHas(p.pitTokenMap, result0.(*nameTreePitEntry).token) && p.pitTokenMap[result0.(*nameTreePitEntry).token] == result0.(*nameTreePitEntry) && !old(mapHas(p.pitTokenMap, result0.(*nameTreePitEntry).token)) && len(result0.(*nameTreePitEntry).inRecords) == 0 && len(result0.(*nameTreePitEntry).outRecords) == 0 && !result0.(*nameTreePitEntry).satisfied && result0.(*nameTreePitEntry).pqItem == nil
